@@ -509,7 +509,47 @@ func DrawCase(t *rapid.T, maxUnits int) Case {
 		k = ref.KUCS2
 	}
 	c.Text = vk.Hex([]byte(BuildText(t, k, fallback && ok, c.Proto, c.Coding, maxUnits)))
+	if rapid.IntRange(0, 7).Draw(t, "corpus") == 0 {
+		c.Text = vk.Hex([]byte(CorpusText(t)))
+	}
 	return c
+}
+
+// Corpus: messages as applications really send them - signature in lenticular or square brackets in front
+// or at the end, one-time codes, links, opt-out lines, JSON-like payloads, repeated bracket pairs (GSM
+// extension characters), emoji with variation selectors. Code that "understands" message texts (signature
+// handling, code detection, compaction) is exercised only by such texts.
+var Corpus = []string{
+	"【ACME】your code is 1234", "【德邦快递】您的快件已签收", "您的验证码是123456，5分钟内有效。【某某科技】", "【】empty signature", "【unclosed signature",
+	"[Bank] OTP 123456. Do not share it with anyone.", "Reply STOP to unsubscribe http://t.cn/AbC123?x=1&y=2", "{\"k\":[1,2,{\"a\":\"b\"}]}",
+	"[][][][][][][][][][][][][][][][][][][][][][][][][][][][][][][][][][][][][][][][][][][][][]", "{}{}{}{}{}{}{}{}{}{}{}{}{}{}{}{}{}{}{}{}{}{}{}{}{}{}{}{}{}{}{}{}{}{}{}{}{}{}{}{}{}{}{}{}{}{}{}{}{}{}{}{}{}{}{}{}{}{}{}{}{}{}{}{}{}{}{}{}{}{}{}{}{}{}{}{}{}{}{}{}",
+	"Total: 12.50€ ~ thanks ^_^ |end|", "\ufeffBOM first", "\u2764\ufe0f \U0001F336\ufe0f \U0001F468\u200d\U0001F469\u200d\U0001F467", "id:0123456789 sub:001 dlvrd:001 submit date:2401011200 done date:2401011201 stat:DELIVRD err:000 text:hello",
+	"Dear customer, your parcel 1Z999AA10123456784 is out for delivery today between 14:00 and 16:00.", "Ünïcödé tèxt with àccénts ñ ß ø å", "\u0005\u0000\u0003\u0001\u0002\u0001looks like a header",
+}
+
+// CorpusText draws a corpus message, optionally repeated / combined to multi-part size.
+func CorpusText(t *rapid.T) string {
+	s := rapid.SampledFrom(Corpus).Draw(t, "corpusmsg")
+	switch rapid.IntRange(0, 3).Draw(t, "corpusshape") {
+	case 0:
+	case 1:
+		s = s + " " + rapid.SampledFrom(Corpus).Draw(t, "corpusmsg2")
+	case 2:
+		n := rapid.IntRange(2, 12).Draw(t, "corpusrep")
+		r := s
+		for i := 1; i < n; i++ {
+			r += " " + s
+		}
+		s = r
+	default:
+		// a signature in front of an ordinary long text
+		tail := rapid.SampledFrom(Corpus).Draw(t, "corpustail")
+		for len(tail) < 200 {
+			tail += " " + tail
+		}
+		s = s + tail
+	}
+	return s
 }
 
 // BuildText builds the text under the geometry of coding k. With forceOut one
@@ -826,4 +866,18 @@ func exactLimitCases() []Case {
 		}
 	}
 	return out
+}
+
+// Twin returns the same text and the same coding NUMBER for the other protocol family (CMPP 0 is ASCII,
+// SMPP 0 is GSM 7-bit; 8 is UCS-2 in both): two calls that have nothing to do with each other but agree
+// in everything a carelessly keyed memo would look at.
+func Twin(c Case) Case {
+	t := c
+	if c.Proto == "cmpp" {
+		t.Proto = "smpp"
+	} else {
+		t.Proto = "cmpp"
+	}
+	t.Note = "same text and coding number, other protocol family"
+	return t
 }
